@@ -1311,22 +1311,31 @@ mod handle_cache_helpers {
         let arc = match cached {
             (key, Some((resp, lifetime))) => {
                 let mut resp = (*resp).clone();
-                let a = Arc::clone(resp.push_response(compressed_response, params));
-                if let Some(cache) = &host.response_cache {
-                    cache.insert(
-                        0,
-                        lifetime.2.map(|dur| {
-                            dur.saturating_sub(
-                                (OffsetDateTime::now_utc() - lifetime.0)
-                                    .max(time::Duration::ZERO)
-                                    .unsigned_abs(),
-                            )
-                        }),
-                        key,
-                        resp,
-                    );
+                // The cached item may have changed while the response was created (other
+                // requests to the same page, a cleared cache): the position to insert at has
+                // to be searched for in the item we push to, not in the one we missed in.
+                match resp.get_by_request(request) {
+                    // Another request cached this variant in the meantime. Leave the cache as is.
+                    Ok(_) => Arc::new((compressed_response, params.into_headers())),
+                    Err(params) => {
+                        let a = Arc::clone(resp.push_response(compressed_response, params));
+                        if let Some(cache) = &host.response_cache {
+                            cache.insert(
+                                0,
+                                lifetime.2.map(|dur| {
+                                    dur.saturating_sub(
+                                        (OffsetDateTime::now_utc() - lifetime.0)
+                                            .max(time::Duration::ZERO)
+                                            .unsigned_abs(),
+                                    )
+                                }),
+                                key,
+                                resp,
+                            );
+                        }
+                        a
+                    }
                 }
-                a
             }
             (_, None) => {
                 let vary_rules = host.vary.rules_from_request(request);
